@@ -19,6 +19,7 @@
 package bfe_spdy
 
 import (
+	"bytes"
 	"compress/zlib"
 	"encoding/binary"
 	"fmt"
@@ -40,6 +41,10 @@ func (frame *SynReplyFrame) read(h ControlFrameHeader, f *Framer) error {
 
 func (frame *RstStreamFrame) read(h ControlFrameHeader, f *Framer) error {
 	frame.CFHeader = h
+	if frame.CFHeader.length != 8 {
+		// the bytes after the fixed fields would be taken for the next frame
+		return &Error{InvalidControlFrame, 0}
+	}
 	if err := binary.Read(f.r, binary.BigEndian, &frame.StreamId); err != nil {
 		return err
 	}
@@ -65,6 +70,10 @@ func (frame *SettingsFrame) read(h ControlFrameHeader, f *Framer) error {
 	if numSettings > MaxNumSettings {
 		return fmt.Errorf("SettingsFrame with invalid numSettings: %d", numSettings)
 	}
+	if frame.CFHeader.length != 4+8*numSettings {
+		// the bytes after the settings would be taken for the next frame
+		return &Error{InvalidControlFrame, 0}
+	}
 
 	frame.FlagIdValues = make([]SettingsFlagIdValue, numSettings)
 	for i := uint32(0); i < numSettings; i++ {
@@ -82,6 +91,10 @@ func (frame *SettingsFrame) read(h ControlFrameHeader, f *Framer) error {
 
 func (frame *PingFrame) read(h ControlFrameHeader, f *Framer) error {
 	frame.CFHeader = h
+	if frame.CFHeader.length != 4 {
+		// the bytes after the id would be taken for the next frame
+		return &Error{InvalidControlFrame, 0}
+	}
 	if err := binary.Read(f.r, binary.BigEndian, &frame.Id); err != nil {
 		return err
 	}
@@ -206,6 +219,26 @@ func (f *Framer) parseControlFrame(version uint16, frameType ControlFrameType) (
 	return cframe, nil
 }
 
+// readBytes reads exactly n bytes from r. The buffer grows with the data
+// that really arrives, so a length field alone (up to 4 GiB in a frame of a
+// few bytes) can not make the reader allocate.
+func readBytes(r io.Reader, n uint32) ([]byte, error) {
+	const chunk = 4096
+	if n <= chunk {
+		b := make([]byte, n)
+		_, err := io.ReadFull(r, b)
+		return b, err
+	}
+	var buf bytes.Buffer
+	if _, err := io.CopyN(&buf, r, int64(n)); err != nil {
+		if err == io.EOF {
+			err = io.ErrUnexpectedEOF
+		}
+		return nil, err
+	}
+	return buf.Bytes(), nil
+}
+
 func parseHeaderValueBlock(r io.Reader, streamId StreamId) (http.Header, uint32, error) {
 	headerLen := uint32(0) // length of header decompressed
 
@@ -225,8 +258,8 @@ func parseHeaderValueBlock(r io.Reader, streamId StreamId) (http.Header, uint32,
 			return nil, 0, err
 		}
 		headerLen += length
-		nameBytes := make([]byte, length)
-		if _, err := io.ReadFull(r, nameBytes); err != nil {
+		nameBytes, err := readBytes(r, length)
+		if err != nil {
 			return nil, 0, err
 		}
 		name := string(nameBytes)
@@ -241,8 +274,8 @@ func parseHeaderValueBlock(r io.Reader, streamId StreamId) (http.Header, uint32,
 			return nil, 0, err
 		}
 		headerLen += length
-		value := make([]byte, length)
-		if _, err := io.ReadFull(r, value); err != nil {
+		value, err := readBytes(r, length)
+		if err != nil {
 			return nil, 0, err
 		}
 		valueList := strings.Split(string(value), headerValueSeparator)
